@@ -224,6 +224,32 @@ def parts(tier):
                         rule="all point subsets x all in-span regions (unit grid exact, decimal grid 1e-9)",
                         bounds={"max_points": 3 if quick else 4}))
 
+    ugrid = tuple(sorted(D.ULP))
+
+    def gen_ulp():
+        for s in D.interval_sets(ugrid, 2 if quick else 3):
+            for e in ([D.labelled(s, "abc")] + ([D.labelled(s, "a")] if len(s) > 1 else [])):
+                for a in ugrid:
+                    for b in ugrid:
+                        if a < b:
+                            yield (e, ugrid[0], ugrid[-1], a, b)
+
+    ps.append(InputPart("erase-intervals-ulp", gen_ulp, lambda c: _check_iv(c, False),
+                        rule="interval sets and regions on the ulp-neighbour grid %s: boundaries and region edges one ulp apart" % (ugrid,),
+                        bounds={"oracle": "structural+1e-9"}, snippet=_snippet))
+
+    def gen_pt_ulp():
+        for s in D.point_sets(ugrid, 3):
+            for labs in ("xyz", "x"):
+                p = D.labelled_points(s, labs)
+                for a in ugrid:
+                    for b in ugrid:
+                        if a < b:
+                            yield (p, ugrid[0], ugrid[-1], a, b)
+
+    ps.append(InputPart("erase-points-ulp", gen_pt_ulp, lambda c: _check_pt(c, False),
+                        rule="point subsets (distinct and equal labels) and regions on the ulp-neighbour grid", bounds={}))
+
     tgrid = D.unit_grid(5)
     tsets = D.interval_sets(tgrid, 2)
     tpts = D.point_sets(tgrid, 2)
